@@ -36,7 +36,8 @@ VERIF = os.path.dirname(os.path.dirname(os.path.abspath(__file__)))
 
 
 class Family:
-    def __init__(self, name, make, bounds, required=True, budget_s=None, args=None, nontrivial=None, max_forks=4000):
+    def __init__(self, name, make, bounds, required=True, budget_s=None, args=None, nontrivial=None, max_forks=4000, max_steps=60000):
+        self.max_steps = max_steps
         self.name = name
         self.make = make
         self.bounds = bounds
@@ -51,7 +52,7 @@ _H = None  # harness module (set before fork)
 _FAMS = None
 
 
-class _ReplayTimeout(Exception):
+class _ReplayTimeout(BaseException):
     pass
 
 
@@ -68,7 +69,7 @@ def _run_replay(label, witness, timeout=20):
     try:
         r = _H.replay(label, witness)
     except _ReplayTimeout:
-        r = ("%s/timeout" % label, "replay did not terminate within %ds" % timeout) if label == "termination" else ("replay-timeout", "replay timed out")
+        r = ("%s/termination" % _H.ID, "the real code did not terminate within %ds on %s" % (timeout, _short(witness, 300)))
     except BaseException as exc:  # replay itself is harness code: its crash is a harness error
         r = ("HARNESS-ERROR", "replay raised %s: %s" % (type(exc).__name__, "".join(traceback.format_exception(exc))[-1500:]))
     finally:
@@ -78,13 +79,28 @@ def _run_replay(label, witness, timeout=20):
     return r
 
 
+def call_with_timeout(fn, secs, *a, **k):
+    """Run fn(*a, **k) in this process under a SIGALRM timeout; raises TimeoutError."""
+
+    def h(signum, frame):
+        raise TimeoutError("timed out after %ss" % secs)
+
+    old = signal.signal(signal.SIGALRM, h)
+    signal.setitimer(signal.ITIMER_REAL, secs)
+    try:
+        return fn(*a, **k)
+    finally:
+        signal.setitimer(signal.ITIMER_REAL, 0)
+        signal.signal(signal.SIGALRM, old)
+
+
 def _task(t):
     """Worker: explore the subtree of family `fi` under `prefix` for at most `slice_s`."""
-    fi, prefix, slice_s, hard_deadline = t
+    fi, prefix, slice_s, hard_deadline, confirmed = t
     fam = _FAMS[fi]
     reset_atoms()
     rt.ENTERED.clear()
-    eng = core.Engine(max_forks=fam.max_forks)
+    eng = core.Engine(max_forks=fam.max_forks, max_steps=fam.max_steps)
     t0 = time.time()
     out = dict(fi=fi, stats=None, notes=None, cands=[], leftovers=[], exhausted=False, error=None,
                unsupported={}, samples=[], entered=[])
@@ -100,7 +116,7 @@ def _task(t):
                     pass
 
         deadline = min(t0 + slice_s, hard_deadline)
-        exhausted, left = eng.explore(body, prefix=prefix, deadline=deadline, on_path=on_path)
+        exhausted, left = eng.explore(body, prefix=prefix, deadline=deadline, on_path=on_path, hard_deadline=hard_deadline)
         out["exhausted"] = exhausted
         out["leftovers"] = left
         out["samples"] = samples
@@ -112,12 +128,19 @@ def _task(t):
     out["entered"] = rt.entered_names()
     # replay candidates here (dedupe by label + witness)
     seen = set()
+    nconf = dict(confirmed)
     for c in eng.candidates:
         key = (c.label, json.dumps(c.witness, sort_keys=True, default=str))
         if key in seen:
             continue
         seen.add(key)
-        r = _run_replay(c.label, c.witness)
+        if nconf.get(c.label, 0) >= 3:
+            # this obligation already has replayed violations: do not spend replay time on more witnesses
+            out["skipped"] = out.get("skipped", 0) + 1
+            continue
+        r = _run_replay(c.label, c.witness, timeout=6 if c.label == "termination" else 20)
+        if r is not None and r[0] not in ("HARNESS-ERROR",):
+            nconf[c.label] = nconf.get(c.label, 0) + 1
         out["cands"].append(dict(label=c.label, witness=c.witness, detail=c.detail, replay=r))
     return out
 
@@ -169,10 +192,13 @@ def run_check(H, tier, seed, only_family=None, jobs=None, verbose=True):
     cands = []
     unsupported = {}
     entered = set()
+    for label, witness in getattr(H, "SELFTEST_CANDIDATES", []):
+        cands.append(dict(label=label, witness=witness, detail="found by the concrete self-test", replay=_run_replay(label, witness), family="selftest"))
 
     ctx = mp.get_context("fork")
     pool = ctx.Pool(jobs, maxtasksperchild=50)
     inflight = {}
+    confirmed = {}
     queue = []  # (fi, prefix)
     for i, f in enumerate(fams):
         queue.append((i, ()))
@@ -188,7 +214,7 @@ def run_check(H, tier, seed, only_family=None, jobs=None, verbose=True):
                 fi, prefix = queue.pop(0)
                 # initial tasks get a short slice so the tree fans out quickly
                 s = 0.4 if len(prefix) == 0 else slice_s
-                ar = pool.apply_async(_task, ((fi, prefix, s, hard_deadline),))
+                ar = pool.apply_async(_task, ((fi, prefix, s, hard_deadline, tuple(confirmed.items())),))
                 inflight[tid] = (fi, ar)
                 tid += 1
             done = [k for k, (fi, ar) in inflight.items() if ar.ready()]
@@ -223,6 +249,8 @@ def run_check(H, tier, seed, only_family=None, jobs=None, verbose=True):
                 for c in r["cands"]:
                     c["family"] = fams[fi].name
                     cands.append(c)
+                    if c["replay"] is not None and c["replay"][0] != "HARNESS-ERROR":
+                        confirmed[c["label"]] = confirmed.get(c["label"], 0) + 1
                 for lp in r["leftovers"]:
                     queue.append((fi, lp))
                     p["pending"] += 1
